@@ -264,4 +264,9 @@ Proof.
   - destruct (run s d2); reflexivity.
   - destruct (step s d) as [s1 o]. rewrite IH. destruct (run s1 r) as [s2 os]. destruct (run s2 d2). reflexivity.
 Qed.
+(* a run interrupted at ANY boundary k and continued from the state reached (which is all that a
+   pickle of the model holds) is the uninterrupted run *)
+Theorem run_resumed s ds k :
+  run s ds = let '(s1, o1) := run s (firstn k ds) in let '(s2, o2) := run s1 (skipn k ds) in (s2, o1 ++ o2).
+Proof. rewrite <- (firstn_skipn k ds) at 1. apply run_app. Qed.
 End Chunking.
